@@ -7,6 +7,8 @@ Python's `ast`, translates
   * SamplingMethod.intg_expl_euler
   * the accumulator loop of SamplingMethod.discrete_system
   * the time rescaling of SamplingMethod.intg_builtin (argument of f, 'ode'/'quad'/'alg' entries)
+  * the collocation loop of DirectCollocation.add_constraints (rockit/direct_collocation.py): step length, root times,
+    defect Pidot, arguments of the system function, quadrature update, continuity equation  -> Gen/DcGen.v, Tie/DcTie.v
 
 into definitions over the model's vocabulary (Base/Vec.v, Mech/Intg.v) and writes them to
 work/gen_<tree>/Gen/IntgGen.v (logical name RV.Gen.IntgGen).  coq/Tie/IntgTie.v then proves (for every field of characteristic 0, every system
@@ -374,6 +376,131 @@ def translate_builtin(fn):
             % (targ, scale_of(data["ode"], "ode"), scale_of(data["quad"], "quad"), scale_of(data["alg"], "alg")))
 
 
+# ------------------------------------------------------------------ DirectCollocation.add_constraints
+class DcCtx:
+    """expressions of the collocation loop: indexed reads of the method's lists become the model's arguments"""
+    ATOMS = {
+        "self.Xc[k][i]": ("cols", "Xc"), "self.Zc[k][i]": ("cols", "Zc"),
+        "self.Xc[k][i][:, j + 1]": ("v", "(nth (S j) Xc [])"), "self.Zc[k][i][:, j]": ("v", "(nth j Zc [])"),
+        "self.Xc[k][i + 1][:, 0]": ("v", "(nth 0 Xc_next [])"), "self.X[k + 1]": ("v", "Xk1"), "self.U[k]": ("v", "Uk"),
+        "self.C[:, j]": ("w", "(col C j)"), "self.D": ("w", "D"), "self.B[j]": ("s", "(nth j B o0)"),
+        "self.tr[k][i][j]": ("s", "tr_kij"), "dt": ("s", "dt"), "self.q": ("v", "q"),
+        "self.integrator_grid[k][i]": ("s", "ig_ki"), "self.tau[j]": ("s", "(nth j tau o0)"),
+        "self.control_grid[k + 1]": ("s", "cg_k1"), "self.control_grid[k]": ("s", "cg_k"), "self.M": ("s", "(of_nat M)"),
+        "res['ode']": ("v", "ode"), "res['quad']": ("v", "quad"), "res['alg']": ("v", "alg"),
+        "Pidot_j": ("v", "Pidot_j"), "x_next": ("v", "x_next"),
+    }
+
+    def expr(self, e):
+        src = ast.unparse(e)
+        if src in self.ATOMS:
+            return self.ATOMS[src]
+        if isinstance(e, ast.Constant) and isinstance(e.value, int) and not isinstance(e.value, bool):
+            return "s", "(of_Z %d)" % e.value
+        if isinstance(e, ast.Call) and isinstance(e.func, ast.Name) and e.func.id == "mtimes" and len(e.args) == 2:
+            ta, a = self.expr(e.args[0])
+            tb, b = self.expr(e.args[1])
+            if (ta, tb) == ("cols", "w"):
+                return "v", "(wsum %s %s)" % (b, a)
+            _fail(e, "mtimes")
+        if isinstance(e, ast.BinOp):
+            ta, a = self.expr(e.left)
+            tb, b = self.expr(e.right)
+            op = type(e.op)
+            if ta == "s" and tb == "s":
+                sym = {ast.Add: "+!", ast.Sub: "-!", ast.Mult: "*!", ast.Div: "/!"}.get(op)
+                if sym:
+                    return "s", "(%s %s %s)" % (a, sym, b)
+            if ta == "v" and tb == "v" and op in (ast.Add, ast.Sub):
+                return "v", "(%s %s %s)" % ("vadd" if op is ast.Add else "vsub", a, b)
+            if ta == "v" and tb == "s" and op is ast.Mult:
+                return "v", "(vscale %s %s)" % (b, a)
+            if ta == "s" and tb == "v" and op is ast.Mult:
+                return "v", "(vscale %s %s)" % (a, b)
+            if ta == "v" and tb == "s" and op is ast.Div:
+                return "v", "(vdivs %s %s)" % (a, b)
+        _fail(e, "collocation expression")
+
+
+def translate_dc(fn):
+    cx = DcCtx()
+    found = {}
+    for st in ast.walk(fn):
+        if isinstance(st, ast.Assign) and len(st.targets) == 1:
+            tgt = ast.unparse(st.targets[0])
+            if tgt == "dt" and ast.unparse(st.value) != "dts[k]":
+                found.setdefault("dt", []).append(st.value)
+            elif tgt == "Pidot_j":
+                found.setdefault("Pidot", []).append(st.value)
+            elif tgt == "self.q" and ast.unparse(st.value) != "0":
+                found.setdefault("q", []).append(st.value)
+            elif tgt == "x_next":
+                found.setdefault("x_next", []).append(st.value)
+            elif tgt == "res" and _is_call(st.value, "f"):
+                found.setdefault("res", []).append(st.value)
+        if isinstance(st, ast.Expr) and isinstance(st.value, ast.Call):
+            c = st.value
+            src = ast.unparse(c.func)
+            if src == "tr.append" and isinstance(c.args[0], ast.ListComp):
+                found.setdefault("tr", []).append(c.args[0])
+            if src == "opti.subject_to" and c.args and isinstance(c.args[0], ast.Compare):
+                cmp_ = c.args[0]
+                kw = {k.arg: ast.unparse(k.value) for k in c.keywords}
+                l, r = ast.unparse(cmp_.left), ast.unparse(cmp_.comparators[0])
+                if l == "Pidot_j":
+                    found.setdefault("colloc_row", []).append((cmp_, kw))
+                elif r == "x_next":
+                    found.setdefault("cont_row", []).append((cmp_, kw))
+                elif r == "res['alg']":
+                    found.setdefault("alg_row", []).append((cmp_, kw))
+    need = {"dt": 2, "Pidot": 1, "q": 1, "x_next": 1, "res": 1, "tr": 1, "colloc_row": 1, "cont_row": 1, "alg_row": 1}
+    for k, n in need.items():
+        if len(found.get(k, [])) != n:
+            raise Untranslatable("DirectCollocation.add_constraints: expected %d statement(s) of kind %s, found %d" % (n, k, len(found.get(k, []))))
+    dts = [cx.expr(e) for e in found["dt"]]
+    if dts[0] != dts[1] or dts[0][0] != "s":
+        raise Untranslatable("DirectCollocation: the step length is computed in two different ways: %r" % (dts,))
+    lc = found["tr"][0]
+    if len(lc.generators) != 1 or ast.unparse(lc.generators[0].iter) != "range(self.degree)" or ast.unparse(lc.generators[0].target) != "j":
+        _fail(lc, "root-time comprehension")
+    ttr, tr = cx.expr(lc.elt)
+    tp, pidot = cx.expr(found["Pidot"][0])
+    tq, qn = cx.expr(found["q"][0])
+    res = {k.arg: ast.unparse(k.value) for k in found["res"][0].keywords}
+    want = {"x": "self.Xc[k][i][:, j + 1]", "u": "self.U[k]", "z": "self.Zc[k][i][:, j]", "p": "p_total", "t": "self.tr[k][i][j]"}
+    if res != want:
+        raise Untranslatable("DirectCollocation: system call %r, expected %r" % (res, want))
+    xn = found["x_next"][0]
+    if not (isinstance(xn, ast.IfExp) and ast.unparse(xn.test) == "i == self.M - 1"):
+        _fail(xn, "x_next")
+    tb1, b1 = cx.expr(xn.body)
+    tb2, b2 = cx.expr(xn.orelse)
+    crow, ckw = found["colloc_row"][0]
+    if ast.unparse(crow.comparators[0]) != "res['ode']" or not isinstance(crow.ops[0], ast.Eq) or ckw != {"scale": "scale_der_x"}:
+        _fail(crow, "collocation row")
+    trow, tkw = found["cont_row"][0]
+    tl, contl = cx.expr(trow.left)
+    if not isinstance(trow.ops[0], ast.Eq) or tkw != {"scale": "scale_x"}:
+        _fail(trow, "continuity row")
+    arow, akw = found["alg_row"][0]
+    if ast.unparse(arow.left) != "0" or not isinstance(arow.ops[0], ast.Eq):
+        _fail(arow, "algebraic row")
+    if (ttr, tp, tq, tb1, tb2, tl) != ("s", "v", "v", "v", "v", "v"):
+        raise Untranslatable("DirectCollocation: unexpected types")
+    return (
+        "Definition gen_dc_dt (cg_k cg_k1 : F) (M : nat) : F := %s.\n"
+        "Definition gen_dc_t_root (ig_ki dt : F) (tau : list F) (j : nat) : F := %s.\n"
+        "Definition gen_dc_Pidot (Xc C : list (list F)) (j : nat) (dt : F) : list F := %s.\n"
+        "(* arguments of the system function at root (k,i,j): x, u, z, t *)\n"
+        "Definition gen_dc_sys_x (Xc : list (list F)) (j : nat) : list F := %s.\n"
+        "Definition gen_dc_sys_z (Zc : list (list F)) (j : nat) : list F := %s.\n"
+        "Definition gen_dc_quad (q quad : list F) (dt : F) (B : list F) (j : nat) : list F := %s.\n"
+        "Definition gen_dc_x_next (Xk1 : list F) (Xc_next : list (list F)) (i M : nat) : list F :=\n"
+        "  if Nat.eqb i (M - 1) then %s else %s.\n"
+        "Definition gen_dc_cont_lhs (Xc : list (list F)) (D : list F) : list F := %s.\n"
+        % (dts[0][1], tr, pidot, cx.ATOMS[want["x"]][1], cx.ATOMS[want["z"]][1], qn, b1, b2, contl))
+
+
 HEADER = """(* GENERATED on every run by harness/translate.py from %s (sha256 %s).
    Do not edit: the file is rewritten from the working tree before Tie/IntgTie.v is checked. *)
 From Coq Require Import ZArith QArith List.
@@ -400,6 +527,26 @@ def generate(repo=None):
     return text
 
 
+HEADER_DC = """(* GENERATED on every run by harness/translate.py from %s (sha256 %s).  Do not edit. *)
+From Coq Require Import ZArith QArith List.
+From RV Require Import Base.Num Base.Vec Mech.Colloc.
+Import ListNotations.
+
+Section GenDc.
+Context {F : Type} {OF : Ops F}.
+
+"""
+
+
+def generate_dc(repo=None):
+    repo = repo or REPO
+    path = os.path.join(repo, "rockit", "direct_collocation.py")
+    src = open(path).read()
+    tree = ast.parse(src)
+    body = translate_dc(_find_method(tree, "DirectCollocation", "add_constraints"))
+    return HEADER_DC % ("rockit/direct_collocation.py", hashlib.sha256(src.encode()).hexdigest()[:16]) + body + "\nEnd GenDc.\n"
+
+
 def workdir(repo=None):
     repo = os.path.realpath(repo or REPO)
     from .common import VERIF
@@ -409,12 +556,20 @@ def workdir(repo=None):
     return d
 
 
-def regenerate(repo=None):
-    """writes work/gen_<repo>/Gen/IntgGen.v from the tree under test; returns (ok, message, dir)"""
+TIES = {
+    # name: (generator, generated file, tie file)
+    "Intg": (generate, "IntgGen.v", "IntgTie.v"),
+    "Dc": (generate_dc, "DcGen.v", "DcTie.v"),
+}
+
+
+def regenerate(repo=None, which="Intg"):
+    """writes work/gen_<repo>/Gen/<X>Gen.v from the tree under test; returns (ok, message, dir)"""
+    gen_f, gen_name, _ = TIES[which]
     d = workdir(repo)
-    out = os.path.join(d, "Gen", "IntgGen.v")
+    out = os.path.join(d, "Gen", gen_name)
     try:
-        text = generate(repo)
+        text = gen_f(repo)
     except Untranslatable as e:
         if os.path.exists(out):
             os.remove(out)
@@ -426,18 +581,19 @@ def regenerate(repo=None):
     return True, "", d
 
 
-def check_tie(repo=None, timeout=600):
+def check_tie(repo=None, which="Intg", timeout=600):
     """regenerate, compile the generated file and the tie lemmas against it.
-    returns dict(ok, stage, log, lemmas, assumptions, source_sha)"""
+    returns dict(ok, stage, log, lemmas, assumptions, generated_sha)"""
     import subprocess, re, shutil
-    ok, msg, d = regenerate(repo)
-    res = {"ok": False, "stage": "translate", "log": msg, "lemmas": [], "assumptions": {}, "dir": d}
+    _, gen_name, tie_name = TIES[which]
+    ok, msg, d = regenerate(repo, which)
+    res = {"ok": False, "stage": "translate", "log": msg, "lemmas": [], "assumptions": {}, "dir": d, "tie_file": "coq/Tie/" + tie_name}
     if not ok:
         return res
-    gen = os.path.join(d, "Gen", "IntgGen.v")
+    gen = os.path.join(d, "Gen", gen_name)
     res["generated_sha"] = hashlib.sha256(open(gen).read().encode()).hexdigest()[:16]
-    tie_src = os.path.join(COQ, "Tie", "IntgTie.v")
-    tie = os.path.join(d, "Tie", "IntgTie.v")
+    tie_src = os.path.join(COQ, "Tie", tie_name)
+    tie = os.path.join(d, "Tie", tie_name)
     shutil.copyfile(tie_src, tie)
     base = ["coqc", "-Q", COQ, "RV", "-Q", os.path.join(d, "Gen"), "RV.Gen", "-Q", os.path.join(d, "Tie"), "RV.Tie"]
     r = subprocess.run(base + [gen], capture_output=True, text=True, timeout=timeout, cwd=d)
@@ -459,3 +615,4 @@ def check_tie(repo=None, timeout=600):
 
 if __name__ == "__main__":
     print(generate())
+    print(generate_dc())
